@@ -144,6 +144,29 @@ where
                 }
                 .into(),
             );
+            if n == 0 {
+                // nothing to concatenate: greet the sink, then complete it (unless it already left)
+                let disposed = Arc::new(AtomicBool::new(false));
+                call!(
+                    sink,
+                    Message::Handshake(Arc::new(
+                        {
+                            let disposed = Arc::clone(&disposed);
+                            move |message| {
+                                if let Message::Error(_) | Message::Terminate = message {
+                                    disposed.store(true, AtomicOrdering::Release);
+                                }
+                            }
+                        }
+                        .into(),
+                    )),
+                    "to sink: {message:?}"
+                );
+                if !disposed.load(AtomicOrdering::Acquire) {
+                    call!(sink, Message::Terminate, "to sink: {message:?}");
+                }
+                return;
+            }
             ({
                 let next_ref: Arc<ArcSwapOption<Box<dyn Fn() + Send + Sync>>> =
                     Arc::new(ArcSwapOption::from(None));
